@@ -3,6 +3,7 @@ package c02
 import (
 	"context"
 	"fmt"
+	"net/http"
 	"sync"
 	"testing"
 	"time"
@@ -98,8 +99,25 @@ func genCase(t *rapid.T) copyx.Case {
 		c.Pre = copyx.GenPre(t, d, d.Reach(c.Root, true), c.Root)
 	} else if rapid.Bool().Draw(t, "filtered") {
 		// a filter reads the predecessors it judges: source reads of its own
-		c.FilterAnnKey = "k"
-		c.FilterAnnRe = rapid.SampledFrom([]string{"", "v1", "v."}).Draw(t, "filterRe")
+		// start below a node that several manifests point to: the filter then has
+		// several predecessors to read, in the order the source lists them
+		var multi []int
+		parents := d.Parents()
+		for _, id := range d.CanonIDs() {
+			if len(parents[id]) >= 2 && !d.Nodes[id].Spec.Absent && !gen.IsForeignMT(d.Nodes[id].Desc.MediaType) {
+				multi = append(multi, id)
+			}
+		}
+		if len(multi) > 0 && rapid.IntRange(0, 2).Draw(t, "belowSeveral") != 1 {
+			c.Root = rapid.SampledFrom(multi).Draw(t, "multiRoot")
+		}
+		if rapid.Bool().Draw(t, "filterByType") {
+			// (an artifact-type filter reads the predecessor manifests as well)
+			c.FilterAT = rapid.SampledFrom([]string{"vnd", "sig", "^application/"}).Draw(t, "filterAT")
+		} else {
+			c.FilterAnnKey = "k"
+			c.FilterAnnRe = rapid.SampledFrom([]string{"", "v1", "v."}).Draw(t, "filterRe")
+		}
 	}
 	ss := sites(&c, d)
 	// sites on nodes that several parents inside the copied graph share: a failure
@@ -137,7 +155,7 @@ func genCase(t *rapid.T) copyx.Case {
 		}
 		c.Faults = append(c.Faults, f)
 	}
-	if c.FilterAnnKey != "" {
+	if c.FilterAnnKey != "" || c.FilterAT != "" {
 		// the read a filter needs: the manifest of a node above the start node
 		own := d.Reach(c.Root, true)
 		var above []int
@@ -263,6 +281,11 @@ func genMountFault(t *rapid.T) copyx.Case {
 	}
 	node := rapid.SampledFrom(blobs).Draw(t, "faultNode")
 	c.Faults = []inst.Fault{{Side: "src", Op: "Fetch", Node: node, When: rapid.SampledFrom([]string{"before", "after", "mid"}).Draw(t, "when"), Kind: "error"}}
+	if rapid.IntRange(0, 2).Draw(t, "mountErr") == 1 {
+		// instead: mounting from one of the candidate repositories fails hard
+		c.Faults = nil
+		c.MountErrRepo = rapid.SampledFrom([]string{"lib/a", "lib/empty", "lib/other"}).Draw(t, "mountErrRepo")
+	}
 	return c
 }
 
@@ -308,11 +331,33 @@ func Run(e *copyx.Env, c *copyx.Case, leg string) (res vt.Result, fail *vt.Fail)
 		}
 	}
 	var out copyx.Outcome
+	mountErrs := 0
+	if c.MountErrRepo != "" && e.DstReg != nil {
+		var mmu sync.Mutex
+		e.DstReg.Pre = func(req *http.Request, rec *regmodel.ReqRecord) (*http.Response, error) {
+			if req.Method == http.MethodPost && req.URL.Query().Get("mount") != "" && req.URL.Query().Get("from") == c.MountErrRepo {
+				mmu.Lock()
+				mountErrs++
+				mmu.Unlock()
+				return regmodel.Response(req, 500, nil, []byte(`{"errors":[{"code":"UNKNOWN","message":"verif: mount failed"}]}`), false, rec.BodyRead), nil
+			}
+			return nil, nil
+		}
+	}
 	fin, dump := vt.Watch(30*time.Second, func() { out = e.Invoke(true) })
 	if !fin {
 		vt.ReportHang(leg, vt.MustJSON(c), vt.Failf("C02/hang", "%s did not return within 30 s with faults %+v", c.API, c.Faults), dump)
 	}
-	fired := e.Rec.AnyFired()
+	if e.DstReg != nil {
+		e.DstReg.Pre = nil
+	}
+	if mountErrs > 0 {
+		res.Classes = append(res.Classes, "mount-request-answered-with-a-server-error")
+		if out.Err == nil {
+			return res, vt.Failf("C02/fault-swallowed", "%s returned nil although %d mount requests from %s were answered with a server error (MountFrom %+v)", c.API, mountErrs, c.MountErrRepo, c.MountFrom)
+		}
+	}
+	fired := e.Rec.AnyFired() || mountErrs > 0
 	depth := d.Depth(c.Root)
 	res.NonTrivial = fired && depth >= 2
 	res.Classes = append(res.Classes, "api-"+c.API, "src-"+c.SrcKind, "dst-"+c.DstKind, fmt.Sprintf("conc-%d", c.Conc))
@@ -395,6 +440,7 @@ func Run(e *copyx.Env, c *copyx.Case, leg string) (res vt.Result, fail *vt.Fail)
 }
 
 func TestMain(m *testing.M) {
+	vt.ReplayRepeat["main"], vt.ReplayRepeat["diamond"] = 30, 30
 	vt.Main(m, "C02",
 		vt.NewLeg("main", 1200, 4000, 16, genCase, runCase),
 		vt.NewLeg("diamond", 400, 1500, 8, genDiamond, runCase),
